@@ -15,7 +15,7 @@ from . import gen, kit
 from .sched import Scheduler, SimAbort
 
 PROP = "C16"
-GROUP = 8  # schedules per workload (alone references are shared inside a group)
+GROUP = 12  # schedules per workload (alone references are shared inside a group)
 
 
 def make_seeds(bseed: int, n: int) -> List[int]:
@@ -104,9 +104,10 @@ def generate(seed: int, tier: str = "quick") -> Dict[str, Any]:
     # the GROUP schedules of one workload are spread over the policies systematically: three of
     # them focus on the workload's three rarest shared-state functions (see execute())
     slot = seed & 15
-    kind = ["pct", "pct", "random", "hot", "hot", "focus", "focus", "focus"][slot % GROUP]
-    if rs.random() < 0.25:
-        kind = rs.choice(["pct", "random", "hot", "roundrobin", "focus"])
+    kind = ["pct", "pct", "random", "hot", "hot", "focus", "focus",
+            "point", "point", "point", "point", "point"][slot % GROUP]
+    if rs.random() < 0.2:
+        kind = rs.choice(["pct", "random", "hot", "roundrobin", "focus", "point"])
     pol: Dict[str, Any] = {"kind": kind, "seed": kit.H(seed, "policy")}
     if kind == "pct":
         pol["depth"] = rs.choice([1, 2, 2, 3, 3])
@@ -127,6 +128,12 @@ def generate(seed: int, tier: str = "quick") -> Dict[str, Any]:
             pol["focus"] = f"rank:{slot % 3}"  # the (slot%3)-th rarest shared hot function
         pol["p_in"] = rs.choice([0.2, 0.5, 0.5, 1.0])
         pol["p_out"] = rs.choice([0.0, 0.0002, 0.001])
+    elif kind == "point":
+        # one pre-emption of one thread at a seeded line inside the workload's (slot-th ranked)
+        # shared-state function; resolved against the alone profiles in execute()
+        pol["focus"] = f"rank:{rs.choice([0, 0, 1, 1, 2])}"
+        pol["victim"] = rs.randrange(n)
+        pol["kfrac"] = rs.random()
     else:
         pol["q"] = rs.choice([1, 2, 3, 5, 10, 37, 200, 1000])
     trace_lark = tier == "thorough" and rs.random() < 0.05
@@ -298,7 +305,7 @@ def execute(trace: Dict[str, Any]) -> Dict[str, Any]:
     k = sum(a["steps"] for a in alone.values())
     cap = 50 * k + 10000
     policy = trace["policy"]
-    if policy.get("kind") == "focus" and str(policy.get("focus", "")).startswith(("auto:", "rank:")):
+    if policy.get("kind") in ("focus", "point") and str(policy.get("focus", "")).startswith(("auto:", "rank:")):
         # the focus function is chosen among the functions touching shared state (sim/hotness.py)
         # that at least two of the threads actually execute when run alone
         count: Dict[str, int] = {}
@@ -323,6 +330,13 @@ def execute(trace: Dict[str, Any]) -> Dict[str, Any]:
             pick = _random.Random(int(arg))
             weights = [score.get(q, 1) ** 2 / max(1.0, lines.get(q, 1)) ** 0.5 for q in cands]
             policy = dict(policy, focus=pick.choices(cands, weights)[0])
+    if policy.get("kind") == "point" and "k" not in policy:
+        tids = [t["tid"] for t in threads]
+        # the victim must be a thread that executes the focus function at all
+        users = [t for t in tids if policy["focus"] in alone[t]["hot"]] or tids
+        victim = users[policy["victim"] % len(users)]
+        n_lines = alone[victim]["hot"].get(policy["focus"], [1, 1])[0]
+        policy = dict(policy, victim=victim, k=1 + int(policy["kfrac"] * n_lines))
     res = run_threads(threads, policy, pre, trace_lark, k, cap)
     violations: List[Dict[str, Any]] = []
     stats: Dict[str, int] = {}
@@ -392,7 +406,7 @@ def execute(trace: Dict[str, Any]) -> Dict[str, Any]:
     if res["lock_blocks"]:
         stats["probe_thread_blocked_on_library_lock"] = res["lock_blocks"]
     stats["policy_" + trace["policy"]["kind"]] = 1
-    if policy.get("kind") == "focus":
+    if policy.get("kind") in ("focus", "point"):
         stats["focus_" + str(policy["focus"])] = 1
     stats["threads"] = len(threads)
     stats["runners_" + "".join(sorted(set(runner_of.values())))] = 1
@@ -517,7 +531,7 @@ def sample_view(trace: Dict[str, Any]) -> Dict[str, Any]:
 
 RULE = ("a case is one (workload, schedule) pair: 2-4 real threads, each with its own Environment, "
         "program(s) and bindings, run under the seeded baton-passing scheduler (policies pct(d<=3), "
-        "random(p), hot(p), focus(function), roundrobin(q); pre-emption at every Python line of celpy and of "
+        "random(p), hot(p), focus(function), point(function, line), roundrobin(q); pre-emption at every Python line of celpy and of "
         "transpiled code) and compared per operation with the same thread run alone; non-trivial = "
         "at least one pre-emptive switch that resumes a thread in the middle of its work; distinct = "
         "distinct digests of (sequence of switch sites, all outcomes)")
